@@ -330,6 +330,21 @@ pub fn run(args: &Args, rep: &mut Report) {
             2..=5 => gen_unbounded(&mut r, sseed, 0),
             _ => gen_bounded(&mut r, sseed),
         };
+        let mut case = case;
+        if case.bounded_until_ms.is_some() && i % 4 == 3 {
+            // targeted loss on top of the random schedule: the first 1-3 datagrams of one direction that contain a
+            // packet of one kind vanish (the client's Finished, the server's first flight, the first 1-RTT packets)
+            let mut r2 = r.fork(0x71);
+            let kind = *r2.pick(&['h', 'h', 'i', 's']);
+            let n = r2.range(1, 3) as u32;
+            if r2.bool() {
+                case.spec.c2s.drop_first_of_kind = Some((kind, n));
+            } else {
+                case.spec.s2c.drop_first_of_kind = Some((kind, n));
+            }
+            case.label = format!("{} + first {n} '{kind}' datagrams dropped", case.label);
+            rep.count("bounded_scenarios_with_targeted_packet_kind_loss");
+        }
         let out = scenario::run(&case.spec);
         let ver = evaluate(&case, &out);
         observe(rep, &case, &out, &ver);
